@@ -18,6 +18,7 @@ pub fn use_def(
                 .operation()
                 .scalars_read()
                 .into_iter()
+                .flatten()
                 .fold(LocationSet::new(), |mut defs, scalar_read| {
                     rd[location].locations().iter().for_each(|rd| {
                         rd.function_location()
@@ -28,6 +29,7 @@ pub fn use_def(
                             .operation()
                             .scalars_written()
                             .into_iter()
+                            .flatten()
                             .for_each(|scalar_written| {
                                 if scalar_written == scalar_read {
                                     defs.insert(rd.clone());
